@@ -1,6 +1,7 @@
 import SlogModel.Model.Time
 import SlogModel.Model.Parse
 import SlogModel.Model.Frame
+import SlogModel.Model.Route
 import SlogModel.Gen.Facts
 import Driver.Util
 
@@ -35,11 +36,15 @@ structure DState where
                             minLen := Facts.parse_min_len.getD 0 }
   frameCfg : Frame.Cfg := { cap := 0, soft := 0 }
   frame : Frame.St := {}
+  routeParts : List Route.Part := []
+  routeN : Nat := 0
+  routePipes : List Bytes := []     -- merge keys of the pipelines, in creation order
+  routeMetrics : List Bytes := []   -- merge keys of the metric key sets, in creation order
 
 def unhexAll (hs : List String) : Option (List Bytes) := hs.mapM unhex
 
 def handleParse (st : DState) : List String → DState × String
-  | "cfg" :: maxMsg :: maxRec :: levels =>
+  | "cfg" :: maxMsg :: maxRec :: _poolMin :: levels =>
     match maxMsg.toNat?, maxRec.toNat?, unhexAll levels with
     | some m, some r, some lv => ({ st with parseCfg := { st.parseCfg with maxMsg := m, maxRec := r, levels := lv } }, "ok")
     | _, _, _ => (st, "bad-op")
@@ -93,11 +98,89 @@ def handleFrame (st : DState) : List String → DState × String
     | some bs => (st, if Frame.recordStart bs then "1" else "0")
   | _ => (st, "bad-op")
 
+def parseOptInt (s : String) : Option (Option Int) :=
+  if s == "_" then some none else (s.toInt?).map some
+
+def parsePart (tok : String) : Option Route.Part :=
+  match tok.toList with
+  | 'L' :: r => (unhex (String.ofList r)).map .lit
+  | 'V' :: r => (String.ofList r).toNat?.map .var
+  | 'S' :: r =>
+    match (String.ofList r).splitOn ":" with
+    | [i, a, b] =>
+      match i.toNat?, parseOptInt a, parseOptInt b with
+      | some i, some a, some b => some (.slice i a b)
+      | _, _, _ => none
+    | _ => none
+  | _ => none
+
+def showKeys (ks : List Bytes) : String := ",".intercalate (ks.map hex)
+
+def indexOrAdd (l : List Bytes) (k : Bytes) : List Bytes × Nat :=
+  match l.idxOf? k with
+  | some i => (l, i)
+  | none => (l ++ [k], l.length)
+
+/-- insertion sort by byte-wise order (what Go's sort.Strings does) -/
+def bytesLt : Bytes → Bytes → Bool
+  | [], [] => false
+  | [], _ :: _ => true
+  | _ :: _, [] => false
+  | a :: as, b :: bs => if a < b then true else if b < a then false else bytesLt as bs
+
+def sortBytes (l : List Bytes) : List Bytes :=
+  l.foldl (fun acc x => (acc.takeWhile (fun y => !bytesLt x y)) ++ x :: acc.dropWhile (fun y => !bytesLt x y)) []
+
+def pairsOf : List Bytes → List (Bytes × Bytes)
+  | a :: b :: r => (a, b) :: pairsOf r
+  | _ => []
+
+def handleRoute (st : DState) : List String → DState × String
+  | "new" :: n :: parts =>
+    match n.toNat?, parts.mapM parsePart with
+    | some n, some ps => ({ st with routeN := n, routeParts := ps, routePipes := [], routeMetrics := [] }, "ok")
+    | _, _ => (st, "bad-op")
+  | "rec" :: hs =>
+    match unhexAll hs with
+    | none => (st, "bad-op")
+    | some ks =>
+      let (pipes, i) := indexOrAdd st.routePipes (Route.mergeKey ks)
+      let tag := match Route.expand st.routeParts ks with
+        | .ok t => hex t
+        | .error p => s!"panic-{p.name}"
+      ({ st with routePipes := pipes }, s!"id={hex (Route.joinId ks)} tag={tag} pipe={i}")
+  | "metric" :: hs =>
+    match unhexAll hs with
+    | none => (st, "bad-op")
+    | some ks =>
+      let (ms, i) := indexOrAdd st.routeMetrics (Route.mergeKey ks)
+      ({ st with routeMetrics := ms }, s!"m={i}")
+  | "split" :: [h] =>
+    match unhex h with
+    | none => (st, "bad-op")
+    | some id => (st, showKeys (Route.splitId id))
+  | "dirs" :: n :: hs =>
+    match n.toNat?, unhexAll hs with
+    | some n, some bs =>
+      let prs := (pairsOf bs).eraseDups
+      let named := prs.filterMap (fun (id, tl) => (Route.dirName id tl).map (fun d => (d, id)))
+      let dirs := sortBytes (named.map (·.1)).eraseDups
+      -- ids in directory order; a directory shared by two ids keeps the id written last
+      let idOf (d : Bytes) : Bytes := match (named.filter (·.1 == d)).getLast? with | some p => p.2 | none => []
+      let ids := dirs.map idOf
+      let recovered := ids.filterMap (fun id =>
+        let ks := Route.splitId id
+        if ks.length = n then some (Route.joinId ks) else none)
+      (st, s!"dirs={showKeys dirs} ids={showKeys ids} recovered={showKeys (sortBytes recovered.eraseDups)}")
+    | _, _ => (st, "bad-op")
+  | _ => (st, "bad-op")
+
 def handle (st : DState) (line : String) : DState × String :=
   match fields line with
   | "time" :: rest => (st, handleTime rest)
   | "parse" :: rest => handleParse st rest
   | "frame" :: rest => handleFrame st rest
+  | "route" :: rest => handleRoute st rest
   | _ => (st, "bad-op")
 
 partial def loop (hin hout : IO.FS.Stream) (st : DState) : IO Unit := do
